@@ -7,6 +7,7 @@ import asyncio
 import logging
 from collections.abc import Callable, Coroutine
 from datetime import datetime as dt
+from itertools import count
 from queue import Empty, Full, PriorityQueue
 from threading import Lock
 from typing import TYPE_CHECKING, Any, Final, TypeAlias
@@ -42,7 +43,7 @@ _LOGGER = logging.getLogger(__name__)
 #######################################################################################
 
 _FutureT: TypeAlias = asyncio.Future[Packet]
-_QueueEntryT: TypeAlias = tuple[Priority, dt, Command, QosParams, _FutureT]
+_QueueEntryT: TypeAlias = tuple[Priority, dt, int, Command, QosParams, _FutureT]
 
 
 class ProtocolContext:
@@ -70,6 +71,7 @@ class ProtocolContext:
         self._que: PriorityQueue[_QueueEntryT] = PriorityQueue(
             maxsize=self.max_buffer_size
         )
+        self._que_seqn = count()  # tie-breaker, so that queue entries never compare cmds
 
         self._expiry_timer: asyncio.Task[None] | None = None
         self._multiplier = 0
@@ -322,7 +324,9 @@ class ProtocolContext:
 
         fut: _FutureT = self._loop.create_future()
         try:
-            self._que.put_nowait((priority, dt.now(), cmd, qos, fut))
+            self._que.put_nowait(
+                (priority, dt.now(), next(self._que_seqn), cmd, qos, fut)
+            )
         except Full as err:
             fut.cancel()
             raise exc.ProtocolSendFailed(f"{self}: Send buffer overflow") from err
